@@ -73,6 +73,19 @@ type engine struct {
 	ntEval    bool
 	ntHost    bool
 	broken    bool
+	// programs compiled by Compile and executed later (compile once, execute
+	// many): each execution adds 1000 + f(x) to the script variable Acc
+	progs  []*prog
+	accSum int
+}
+
+// prog is a compiled program calling one callable with fixed arguments.
+type prog struct {
+	c     *callable
+	x     int
+	step  int
+	p     *interp.Program
+	epoch int // cancellations completed when it was compiled
 }
 
 type budgetExceeded struct{}
@@ -127,7 +140,7 @@ func newEngine(x excl, checkAll bool) *engine {
 		panic(err)
 	}
 	e.i.VerifSetStepHook(e.budgetHook)
-	for _, src := range []string{`import "hostc10"`, `func Spin() { for {} }`, `func Give(f func(int) int) { hostc10.Keep(f) }`} {
+	for _, src := range []string{`import "hostc10"`, `func Spin() { for {} }`, `func Give(f func(int) int) { hostc10.Keep(f) }`, `var Acc int`} {
 		var err error
 		r := e.guard(func() { _, err = e.i.Eval(src) })
 		if r != "" || err != nil {
@@ -468,8 +481,96 @@ func (e *engine) apply(a *Action) *failure {
 		return e.useCallable(e.calls[a.C], a.Route, a.X, a.Step)
 	case "cancel":
 		return e.cancelled(a)
+	case "compile":
+		if a.C < 0 || a.C >= len(e.calls) {
+			return &failure{"harness", "bad callable index"}
+		}
+		return e.compile(e.calls[a.C], a.X, a.Step)
+	case "exec":
+		if a.H < 0 || a.H >= len(e.progs) {
+			return &failure{"harness", "bad program index"}
+		}
+		e.stats["use:"+a.Route]++
+		return e.execute(e.progs[a.H], a.Route)
 	}
 	return &failure{"harness", "unknown op " + a.Op}
+}
+
+// compile builds, now, a program which calls c with fixed arguments and adds
+// the result to Acc; it is executed by later exec actions.
+func (e *engine) compile(c *callable, x, step int) *failure {
+	call := fmt.Sprintf("%s(%d)", c.expr, x)
+	if c.factory {
+		call = fmt.Sprintf("%s(%d)(%d)", c.expr, step, x)
+	}
+	var p *interp.Program
+	var err error
+	r := e.guard(func() { p, err = e.i.Compile("Acc += 1000 + " + call) })
+	if r != "" || err != nil {
+		return &failure{sigBase, fmt.Sprintf("Compile of a call of %s: %s %v", c.expr, r, err)}
+	}
+	e.needEval = false // Compile starts a run
+	e.progs = append(e.progs, &prog{c: c, x: x, step: step, p: p, epoch: e.epoch})
+	e.stats["compile"]++
+	return nil
+}
+
+// execute runs a compiled program through Execute or ExecuteWithContext and
+// compares Acc with the model.
+func (e *engine) execute(pr *prog, route string) *failure {
+	c := pr.c
+	sig := e.classify(c, "eval")
+	if pr.epoch < e.epoch && e.epoch > 0 && sig != keyClosure && sig != keySelect {
+		sig = "compiled-program-after-cancel"
+	}
+	want := c.fn
+	add := 0
+	if c.factory {
+		add = c.mk(pr.step)(pr.x)
+	} else {
+		add = want(pr.x)
+	}
+	var err error
+	r := e.guard(func() {
+		if route == "execctx" {
+			_, err = e.i.ExecuteWithContext(context.Background(), pr.p)
+		} else {
+			_, err = e.i.Execute(pr.p)
+		}
+	})
+	if route == "execctx" && r != "hang" {
+		if !e.settle() {
+			return &failure{sigLeak, "goroutines of a completed ExecuteWithContext never ended"}
+		}
+	}
+	switch {
+	case r == "hang":
+		return &failure{"use-hangs", fmt.Sprintf("execution of the program compiled for %s never returned", c.expr)}
+	case r == "diverge":
+		return &failure{"use-diverges", fmt.Sprintf("execution of the program compiled for %s executed more than %d operations", c.expr, opBudget)}
+	case r != "":
+		return &failure{sig, fmt.Sprintf("execution of the program compiled for %s: escaped %s [%s]", c.expr, r, e.situation())}
+	case err != nil:
+		return &failure{sig, fmt.Sprintf("execution of the program compiled for %s: error %v [%s]", c.expr, err, e.situation())}
+	}
+	e.needEval = false
+	if route == "execctx" {
+		e.doneStale = false
+	}
+	e.accSum += 1000 + add
+	v, obs, f := e.eval("eval", "Acc")
+	if f != nil {
+		return f
+	}
+	if obs == "" {
+		obs = describe(v)
+	}
+	if obs != strconv.Itoa(e.accSum) {
+		want := e.accSum
+		e.accSum, _ = strconv.Atoi(obs) // resynchronise the model
+		return &failure{sig, fmt.Sprintf("%s of the program compiled (after %d cancellation(s)) for a call of %s: Acc is %s, the model gives %d [%s definition; %s]", route, pr.epoch, c.expr, obs, want, c.kind, e.situation())}
+	}
+	return nil
 }
 
 func (e *engine) define(a *Action) *failure {
@@ -857,6 +958,14 @@ wait:
 	e.needEval, e.doneStale = true, true
 	e.lastKind = a.CKind
 	e.stats["cancel:"+a.CKind+"|"+trigger]++
+	if a.Then > 0 && a.Then <= len(e.progs) {
+		// a program compiled earlier is executed at once, before any other
+		// evaluation or compilation
+		if pr := e.progs[a.Then-1]; e.usable(pr.c, "eval") == "" {
+			e.stats["exec-right-after-cancel"]++
+			return e.execute(pr, a.Route)
+		}
+	}
 	return nil
 }
 
